@@ -46,6 +46,19 @@ func init() {
 			}
 		},
 	}
+	plans["C02"] = &Plan{
+		Level: "exploration",
+		Rule: "documents = (a) block sweep: 6 document shapes x string/white-space length 0..L x position x 11 special byte groups (quote, backslash, escaped quote, control, ...) so that every critical byte meets every offset of a 16/32/64-byte SIMD block (L=70 quick, 140 thorough); (b) unterminated strings of every length 0..2L+70 x 5 fillers x 6 prefixes; (c) seeded structure-random valid documents, 1- and 2-edit mutations, every kind of truncation, token soups, number spellings; (d) nesting 4094..10001. " +
+			"Each document is given to 25+ consuming entry points (Valid x4 configs, Unmarshal into interface{}/struct/slice/map x3 configs, RawMessage, Unmarshaler capture (captured bytes re-checked), *ast.Node, Get x3 with and without path, NewRaw+LoadAll, Preorder, decoder.Skip span) at a rotating alignment and judged against the two bounds json.Valid => accept, accept => StructOK. distinct = hash of document bytes; non-trivial = length >= 2",
+		Assumptions: stdAssumptions, MinEvals: 50000, MinEvalsThorough: 1000000,
+		Runs: func(string) []*Run {
+			return []*Run{
+				{Name: "avx2", Flavor: "plain", NBatch: 16, TimeoutS: n(600, 3000)},
+				{Name: "sse", Flavor: "plain", NBatch: n(6, 16), Env: []string{"SONIC_MODE=noavx2"}, TimeoutS: n(600, 3000)},
+				{Name: "optdec", Flavor: "plain", NBatch: n(4, 16), Env: []string{"SONIC_USE_OPTDEC=1"}, TimeoutS: n(600, 3000)},
+			}
+		},
+	}
 	plans["C19"] = &Plan{
 		Level: "exploration",
 		Rule: "decode: seeded number literals (boundary integers of every width +-2, 15-22 and 30-1100 digit mantissas, exponents around +-308/324/400, long zero runs, exact float64/float32 midpoints built with math/big and perturbed in a far digit, subnormal/min-normal/max boundaries, zeros) through 30+ routes per literal (float64/float32/every integer width/json.Number/interface{} under default, UseNumber, UseInt64/',string' fields/integer map keys/ast accessors/Interface/Preorder callbacks) against strconv and encoding/json; " +
